@@ -173,6 +173,12 @@ func (v *VoteDB) ExistVoteData(voteType VoteType, round *big.Int, roundIndex uin
 }
 
 func (v *VoteDB) alreadyVoted(voteType VoteType, round *big.Int, roundIndex uint32) bool {
+	// a later round has been entered: every earlier round is closed for voting, just like the
+	// earlier round indexes of the current round (context events are posted asynchronously and
+	// may arrive in swapped order, which takes the voter back to the previous round for a moment)
+	if v.round != nil && v.round.Cmp(round) > 0 {
+		return true
+	}
 	if v.round != nil && v.round.Cmp(round) == 0 {
 		if v.roundIndex > roundIndex ||
 			(v.roundIndex == roundIndex && voteType == NextIndex && v.mark[voteType] == 2) ||
